@@ -801,7 +801,7 @@ func (b *builder) field(fl *File, scope string, x *Field, extendee string, oneof
 	}
 	seen := map[string]bool{}
 	for _, o := range x.Opts {
-		if seen[o.Name] && !strings.HasPrefix(o.Name, "(") {
+		if seen[o.Name] && !strings.HasPrefix(o.Name, "(") && o.Name != "targets" { // targets is repeated
 			b.rej("option-set-twice", "field %s: option %s set twice", full, o.Name)
 		}
 		seen[o.Name] = true
